@@ -1,0 +1,398 @@
+//! Verification hooks for the executor (cargo feature `verif`, off by default).
+//!
+//! This is a *child* module of `executor`, so it can read the executor's private state without
+//! changing any visibility. Everything here is read-only with respect to the executor, except the
+//! per-thread time-slice override, which only replaces the `max_units` argument of `step`.
+
+use super::*;
+use std::cell::{Cell, RefCell};
+
+thread_local! {
+    static QUANTUM: Cell<Option<usize>> = const { Cell::new(None) };
+    static TRACE: RefCell<Option<Vec<TraceRecord>>> = const { RefCell::new(None) };
+    static SELECT_LOG: RefCell<Option<Vec<SelectRecord>>> = const { RefCell::new(None) };
+}
+
+/// Override the time-slice length of every `Executor::step` on this thread (`None` = no override).
+pub fn set_quantum(quantum: Option<usize>) {
+    QUANTUM.with(|q| q.set(quantum));
+}
+
+pub fn quantum() -> Option<usize> {
+    QUANTUM.with(|q| q.get())
+}
+
+/// One canonical order for a set of process ids (the production build iterates a `HashSet`).
+pub fn sorted(mut pids: Vec<ProcessId>) -> Vec<ProcessId> {
+    pids.sort_unstable();
+    pids
+}
+
+// ---------------------------------------------------------------------------------------------
+// Instruction trace (C07 conformance)
+
+#[derive(Debug, Clone, PartialEq, Eq)]
+pub struct TraceRecord {
+    pub pid: ProcessId,
+    pub function_index: usize,
+    pub pc: usize,
+    /// Operand stack length of the whole process.
+    pub stack_len: usize,
+    /// Locals length of the whole process.
+    pub locals_len: usize,
+    pub locals_base: usize,
+    pub frames: usize,
+}
+
+pub fn trace_start() {
+    TRACE.with(|t| *t.borrow_mut() = Some(Vec::new()));
+}
+
+pub fn trace_take() -> Vec<TraceRecord> {
+    TRACE.with(|t| t.borrow_mut().take().unwrap_or_default())
+}
+
+#[inline]
+pub(super) fn trace(pid: ProcessId, proc: &Process) {
+    TRACE.with(|t| {
+        if let Some(log) = t.borrow_mut().as_mut()
+            && let Some(frame) = proc.frames.last()
+        {
+            log.push(TraceRecord {
+                pid,
+                function_index: frame.function_index,
+                pc: frame.counter,
+                stack_len: proc.stack.len(),
+                locals_len: proc.locals.len(),
+                locals_base: frame.locals_base,
+                frames: proc.frames.len(),
+            });
+        }
+    });
+}
+
+// ---------------------------------------------------------------------------------------------
+// Select monitor (C05)
+
+/// A value together with the bytes of every heap binary it references (as `extract_heap_data`).
+pub type PortableValue = (Value, Vec<Vec<u8>>);
+
+#[derive(Debug, Clone)]
+pub struct SelectSnapshot {
+    pub has_state: bool,
+    pub sources: Vec<PortableValue>,
+    /// For each source: `Some(true)` = body-less (type-only) receiver, `Some(false)` = filter
+    /// function with a body, `None` = not a receive source.
+    pub source_type_only: Vec<Option<bool>>,
+    pub cursors: Vec<usize>,
+    pub start_time: Option<u64>,
+    pub receiving: Option<(usize, PortableValue)>,
+    pub mailbox: Vec<PortableValue>,
+    /// Sorted by awaited pid.
+    pub awaiting: Vec<(ProcessId, Option<PortableValue>)>,
+    pub stack_top: Option<PortableValue>,
+    pub stack_len: usize,
+    pub parked: bool,
+}
+
+#[derive(Debug, Clone)]
+pub enum SelectOutcome {
+    /// `handle_select` returned an error.
+    Error(Error),
+    /// First entry with process sources: an `Await` action was emitted and the process parked.
+    Awaiting(Vec<ProcessId>),
+    /// No select state is left: the select completed; `stack_top` of `after` is its value.
+    Completed,
+    /// A filter function was called on the message now held in `receiving`.
+    FilterCalled,
+    /// No source was ready; the process is parked in `selecting`.
+    Parked,
+    /// Anything else (state present, not parked, no filter in flight).
+    Other,
+}
+
+#[derive(Debug, Clone)]
+pub struct SelectRecord {
+    pub worker_id: u16,
+    pub pid: ProcessId,
+    pub now: u64,
+    pub before: SelectSnapshot,
+    pub after: SelectSnapshot,
+    pub outcome: SelectOutcome,
+}
+
+pub fn select_log_start() {
+    SELECT_LOG.with(|t| *t.borrow_mut() = Some(Vec::new()));
+    PENDING_ENTRY.with(|p| p.borrow_mut().clear());
+}
+
+pub fn select_log_take() -> Vec<SelectRecord> {
+    SELECT_LOG.with(|t| t.borrow_mut().take().unwrap_or_default())
+}
+
+pub fn select_log_drain() -> Vec<SelectRecord> {
+    SELECT_LOG.with(|t| match t.borrow_mut().as_mut() {
+        Some(log) => std::mem::take(log),
+        None => Vec::new(),
+    })
+}
+
+thread_local! {
+    static PENDING_ENTRY: RefCell<Vec<(u16, ProcessId, u64, SelectSnapshot)>> = const { RefCell::new(Vec::new()) };
+}
+
+fn select_log_enabled() -> bool {
+    SELECT_LOG.with(|t| t.borrow().is_some())
+}
+
+fn portable<E: Effect>(executor: &Executor<E>, value: &Value) -> PortableValue {
+    executor
+        .extract_heap_data(value)
+        .unwrap_or_else(|_| (value.clone(), Vec::new()))
+}
+
+fn snapshot<E: Effect>(executor: &Executor<E>, pid: ProcessId) -> SelectSnapshot {
+    let Some(process) = executor.processes.get(&pid) else {
+        return SelectSnapshot {
+            has_state: false,
+            sources: vec![],
+            source_type_only: vec![],
+            cursors: vec![],
+            start_time: None,
+            receiving: None,
+            mailbox: vec![],
+            awaiting: vec![],
+            stack_top: None,
+            stack_len: 0,
+            parked: false,
+        };
+    };
+    let state = process.select_state.as_ref();
+    let sources: Vec<&Value> = state.map(|s| s.sources.iter().collect()).unwrap_or_default();
+    let source_type_only = sources
+        .iter()
+        .map(|s| match s {
+            Value::Function(func_id, _) => Some(
+                executor
+                    .functions
+                    .get(*func_id)
+                    .map(|f| f.instructions.is_empty())
+                    .unwrap_or(false),
+            ),
+            Value::Builtin(_) => Some(true),
+            _ => None,
+        })
+        .collect();
+    let mut awaiting: Vec<(ProcessId, Option<PortableValue>)> = process
+        .awaiting
+        .iter()
+        .map(|(k, v)| (*k, v.as_ref().map(|v| portable(executor, v))))
+        .collect();
+    awaiting.sort_by_key(|(k, _)| *k);
+    SelectSnapshot {
+        has_state: state.is_some(),
+        sources: sources.iter().map(|v| portable(executor, v)).collect(),
+        source_type_only,
+        cursors: state.map(|s| s.cursors.clone()).unwrap_or_default(),
+        start_time: state.and_then(|s| s.start_time),
+        receiving: state.and_then(|s| {
+            s.receiving
+                .as_ref()
+                .map(|(i, v)| (*i, portable(executor, v)))
+        }),
+        mailbox: process
+            .mailbox
+            .iter()
+            .map(|v| portable(executor, v))
+            .collect(),
+        awaiting,
+        stack_top: process.stack.last().map(|v| portable(executor, v)),
+        stack_len: process.stack.len(),
+        parked: executor.selecting.contains(&pid),
+    }
+}
+
+pub(super) fn select_enter<E: Effect>(executor: &Executor<E>, pid: ProcessId, now: u64) {
+    if !select_log_enabled() {
+        return;
+    }
+    let snap = snapshot(executor, pid);
+    PENDING_ENTRY.with(|p| p.borrow_mut().push((executor.worker_id, pid, now, snap)));
+}
+
+pub(super) fn select_exit<E: Effect>(
+    executor: &Executor<E>,
+    pid: ProcessId,
+    result: &Result<Option<Action<E>>, Error>,
+) {
+    if !select_log_enabled() {
+        return;
+    }
+    let entry = PENDING_ENTRY.with(|p| {
+        let mut p = p.borrow_mut();
+        let pos = p
+            .iter()
+            .rposition(|(w, q, _, _)| *w == executor.worker_id && *q == pid)?;
+        Some(p.remove(pos))
+    });
+    let Some((worker_id, _, now, before)) = entry else {
+        return;
+    };
+    let after = snapshot(executor, pid);
+    let outcome = match result {
+        Err(e) => SelectOutcome::Error(e.clone()),
+        Ok(Some(Action::Await { targets, .. })) => SelectOutcome::Awaiting(targets.clone()),
+        Ok(_) if !after.has_state => SelectOutcome::Completed,
+        Ok(_) if after.parked => SelectOutcome::Parked,
+        Ok(_) if after.receiving.is_some() => SelectOutcome::FilterCalled,
+        Ok(_) => SelectOutcome::Other,
+    };
+    SELECT_LOG.with(|t| {
+        if let Some(log) = t.borrow_mut().as_mut() {
+            log.push(SelectRecord {
+                worker_id,
+                pid,
+                now,
+                before,
+                after,
+                outcome,
+            });
+        }
+    });
+}
+
+// ---------------------------------------------------------------------------------------------
+// Read-only views
+
+#[derive(Debug, Clone, PartialEq)]
+pub struct HeapView {
+    pub lens: Vec<usize>,
+    pub refcounts: Vec<u32>,
+    pub freed: Vec<bool>,
+    pub free: Vec<usize>,
+    pub pending_free: Vec<usize>,
+    pub constant_binaries: Vec<Option<Binary>>,
+    pub reclaimed: usize,
+}
+
+#[derive(Debug, Clone, PartialEq, Eq)]
+pub struct SchedView {
+    pub queue: Vec<ProcessId>,
+    pub spawning: Vec<ProcessId>,
+    pub selecting: Vec<ProcessId>,
+    pub effecting: Vec<ProcessId>,
+    pub pids: Vec<ProcessId>,
+}
+
+impl<E: Effect> Executor<E> {
+    pub fn verif_heap_view(&self) -> HeapView {
+        HeapView {
+            lens: self.heap.iter().map(BinaryData::len).collect(),
+            refcounts: self.refcounts.clone(),
+            freed: self.freed.clone(),
+            free: self.free.clone(),
+            pending_free: self.pending_free.clone(),
+            constant_binaries: self.constant_binaries.clone(),
+            reclaimed: self.reclaimed,
+        }
+    }
+
+    /// Bytes of heap slot `index` (flattened copy), if the slot exists.
+    pub fn verif_heap_bytes(&self, index: usize) -> Option<Vec<u8>> {
+        self.heap.get(index).map(|d| d.to_vec())
+    }
+
+    pub fn verif_sched_view(&self) -> SchedView {
+        let sorted_set = |s: &HashSet<ProcessId>| {
+            let mut v: Vec<ProcessId> = s.iter().copied().collect();
+            v.sort_unstable();
+            v
+        };
+        let mut pids: Vec<ProcessId> = self.processes.keys().copied().collect();
+        pids.sort_unstable();
+        SchedView {
+            queue: self.queue.iter().copied().collect(),
+            spawning: sorted_set(&self.spawning),
+            selecting: sorted_set(&self.selecting),
+            effecting: sorted_set(&self.effecting),
+            pids,
+        }
+    }
+
+    pub fn verif_worker_id(&self) -> u16 {
+        self.worker_id
+    }
+
+    pub fn verif_next_ref(&self) -> u64 {
+        self.next_ref
+    }
+
+    /// Number of functions / constants / tuples / types the executor currently knows.
+    pub fn verif_program_sizes(&self) -> (usize, usize, usize, usize) {
+        (
+            self.functions.len(),
+            self.constants.len(),
+            self.tuples.len(),
+            self.type_compatibility.len(),
+        )
+    }
+
+    /// Canonical textual fingerprint of the executor's behaviour-relevant state: scheduler sets,
+    /// every process (stack, locals, frames, mailbox, result, select state, awaiting — maps
+    /// sorted), and the heap accounting (slot contents, counts, free list, deferred frees).
+    /// Deliberately fine-grained (raw pids, raw slot numbers): two states with the same
+    /// fingerprint have the same futures for the same program.
+    pub fn verif_fingerprint(&self, out: &mut String) {
+        use std::fmt::Write;
+        let sched = self.verif_sched_view();
+        let _ = write!(
+            out,
+            "X{}|q{:?}|sp{:?}|se{:?}|ef{:?}|nr{}|",
+            self.worker_id, sched.queue, sched.spawning, sched.selecting, sched.effecting, self.next_ref
+        );
+        let _ = write!(
+            out,
+            "P{}/{}/{}|",
+            self.functions.len(),
+            self.constants.len(),
+            self.tuples.len()
+        );
+        for pid in &sched.pids {
+            let p = &self.processes[pid];
+            let _ = write!(out, "p{}{{s{:?}l{:?}f[", pid, p.stack, p.locals);
+            for f in &p.frames {
+                let _ = write!(
+                    out,
+                    "({},{},{},{})",
+                    f.function_index, f.locals_base, f.captures_count, f.counter
+                );
+            }
+            let _ = write!(
+                out,
+                "]m{:?}r{:?}pe{}",
+                p.mailbox, p.result, p.persistent as u8
+            );
+            if let Some(s) = &p.select_state {
+                let _ = write!(
+                    out,
+                    "S({},{},{:?},{:?},{:?},{:?})",
+                    s.frame, s.instruction, s.sources, s.cursors, s.start_time, s.receiving
+                );
+            }
+            let mut aw: Vec<_> = p.awaiting.iter().collect();
+            aw.sort_by_key(|(k, _)| **k);
+            let _ = write!(out, "a{:?}}}", aw);
+        }
+        let _ = write!(
+            out,
+            "|H rc{:?} fr{:?} free{:?} pf{:?} cb{:?} [",
+            self.refcounts, self.freed, self.free, self.pending_free, self.constant_binaries
+        );
+        for (i, d) in self.heap.iter().enumerate() {
+            if !self.freed[i] {
+                let _ = write!(out, "{}:{:02x?};", i, d.to_vec());
+            }
+        }
+        out.push(']');
+    }
+}
